@@ -88,13 +88,20 @@ func runC12(c *Ctx) {
 	r.Info["findUser_callers"] = fuCallers
 
 	// D2: same key, from RemoteAddr
-	checks := core.CallsTo(hl, kCheck)
-	cookies := core.CallsTo(hl, kNewCookie)
-	if len(checks) != 1 || len(cookies) != 1 {
-		r.Undecided("C12-D2", "handleLogin-calls", p.FnPos(hl), "expected exactly one check and one newCookie call")
+	// (the calls may sit in a helper of the handler: their arguments are then read at the helper's call site)
+	checks := core.CallsToDeep(hl, kCheck)
+	cookies := core.CallsToDeep(hl, kNewCookie)
+	var keyVs, addrVs []ssa.Value
+	okK, okA := false, false
+	if len(checks) == 1 && len(cookies) == 1 {
+		keyVs, okK = core.InRoot(checks[0].Arg(1), hl)
+		addrVs, okA = core.InRoot(cookies[0].Arg(2), hl)
+	}
+	if !okK || !okA || len(keyVs) != 1 || len(addrVs) != 1 {
+		r.Undecided("C12-D2", "handleLogin-calls", p.FnPos(hl), "expected exactly one check and one newCookie call, with arguments that are values of the handler")
 	} else {
-		keyV := checks[0].Arg(1)
-		addrV := cookies[0].Arg(2)
+		keyV := keyVs[0]
+		addrV := addrVs[0]
 		same := core.ResolveCellLoad(keyV) == core.ResolveCellLoad(addrV)
 		r.Check(same, "C12-D2", "same-key-for-check-and-count", p.InstrPos(cookies[0].Instr),
 			"the address checked is the address the failure is counted against",
@@ -262,11 +269,16 @@ func c12UnderLock(c *Ctx, typ, field, lock string, constructors []string) {
 	r.Floor("C12-lock", typ+"."+field+"-accessors", n, 2)
 }
 
-func c12Sessions(c *Ctx) {
+func c12Sessions(c *Ctx) { sessionValidity(c, "C12-D4") }
+
+// sessionValidity: checkSession accepts a token only if it is in the table and
+// unexpired (shared with C11); under C12-D4 also what happens to expired and
+// logged-out sessions.
+func sessionValidity(c *Ctx, rule string) {
 	p, r := c.P, c.R
 	cs := p.Fn("(*home.Auth).checkSession")
 	if cs == nil {
-		r.Undecided("C12-D4", "checkSession", "-", "anchor not found")
+		r.Undecided(rule, "checkSession", "-", "anchor not found")
 		return
 	}
 	isSessionsMap := func(v ssa.Value) bool {
@@ -296,7 +308,7 @@ func c12Sessions(c *Ctx) {
 		return false, false
 	})
 	off1, ns := core.UnguardedSinks(cs, okRet, gFound)
-	r.Check(n1 > 0 && ns > 0 && len(off1) == 0, "C12-D4", "session-ok-only-if-found", p.FnPos(cs),
+	r.Check(n1 > 0 && ns > 0 && len(off1) == 0, rule, "session-ok-only-if-found", p.FnPos(cs),
 		"checkSession reports OK only for a token found in the session table", "checkSession can report OK for a token that is not in the session table", traceOf(p, off1)...)
 	isExpire := func(v ssa.Value) bool {
 		fr, _, ok := core.LoadedField(v)
@@ -323,8 +335,24 @@ func c12Sessions(c *Ctx) {
 		return false, false
 	})
 	off2, _ := core.UnguardedSinks(cs, okRet, gLive)
-	r.Check(n2 > 0 && len(off2) == 0, "C12-D4", "session-ok-only-if-unexpired", p.FnPos(cs),
+	r.Check(n2 > 0 && len(off2) == 0, rule, "session-ok-only-if-unexpired", p.FnPos(cs),
 		"checkSession reports OK only when the expiry lies in the future", "checkSession can report OK without the expiry having been compared with the current time", traceOf(p, off2)...)
+	// ... the expiry that is compared is the stored one: it is moved forward only for a session already found unexpired
+	isExpireStore := func(in ssa.Instruction) bool {
+		st, ok := in.(*ssa.Store)
+		if !ok {
+			return false
+		}
+		fr, ok := core.FieldOfAddr(st.Addr)
+		return ok && fr.Type == "home.session" && fr.Field == "expire"
+	}
+	off3, ns3 := core.UnguardedSinks(cs, isExpireStore, gLive)
+	r.Check(n2 > 0 && ns3 > 0 && len(off3) == 0, rule, "expiry-extended-only-if-unexpired", p.FnPos(cs),
+		"the expiry of a session is moved forward only after it was found to lie in the future",
+		"the expiry of a session can be moved forward before (or without) being compared with the current time: an expired cookie is revived by the very request that presents it", traceOf(p, off3)...)
+	if rule != "C12-D4" {
+		return
+	}
 	// expired edge deletes from map and file
 	gExp, _ := core.CondEdges(cs, func(at core.Atom) (bool, bool) {
 		if isExpire(at.Base) && (at.Op == token.LEQ || at.Op == token.LSS) {
@@ -369,7 +397,7 @@ func c12Sessions(c *Ctx) {
 	// handleLogout calls removeSession
 	hlo := p.Fn("home.handleLogout")
 	if hlo != nil {
-		r.Check(len(core.CallsTo(hlo, "(*home.Auth).removeSession")) > 0, "C12-D4", "logout-route-removes-session", p.FnPos(hlo), "the logout route removes the session", "the logout route no longer removes the session")
+		r.Check(len(core.CallsToDeep(hlo, "(*home.Auth).removeSession")) > 0, "C12-D4", "logout-route-removes-session", p.FnPos(hlo), "the logout route removes the session", "the logout route no longer removes the session")
 	}
 	// loadSessions: insertion only when not expired and deserialised
 	ls := p.Fn("(*home.Auth).loadSessions")
